@@ -1,6 +1,6 @@
 (* Base.v -- conventions shared by every model file.
    Executable definitions only; no proofs here (the model must still run when a proof breaks). *)
-From Coq Require Export List NArith ZArith String Ascii Bool.
+From Coq Require Export String Ascii NArith ZArith Bool List.
 Export ListNotations.
 
 (* Results of modelled Rust functions.  Panics are values: every expect/unwrap/index/unreachable! in
